@@ -36,7 +36,7 @@ impl<T> RwLock<T> {
             return;
         }
         let (sim, me) = ctx();
-        sim.yield_now(me);
+        sim.sync_point(me);
         let mut blocked_once = false;
         loop {
             {
